@@ -42,13 +42,15 @@ pub(crate) fn range_with_prefix<'a>(
         None => namespace.to_vec(),
     };
     let end = match end {
-        Some(e) => concat(namespace, e),
+        Some(e) => Some(concat(namespace, e)),
+        // an empty namespace or a namespace built of 0xFF bytes only has no upper bound
+        None if namespace.iter().all(|byte| *byte == 0xFF) => None,
         // end is updating last byte by one
-        None => namespace_upper_bound(namespace),
+        None => Some(namespace_upper_bound(namespace)),
     };
 
     // get iterator from storage
-    let base_iterator = storage.range(Some(&start), Some(&end), order);
+    let base_iterator = storage.range(Some(&start), end.as_deref(), order);
 
     // make a copy for the closure to handle lifetimes safely
     let prefix = namespace.to_vec();
